@@ -169,6 +169,9 @@ class SecureGateway(SimGateway):
                 st = self.auth_result if ok else ST_AUTH_FAILED
                 if ok and self.auth_results:
                     st = self.auth_results.pop(0)       # scripted per authentication (then auth_result)
+                    if st is None:
+                        self.fired["session:authenticate_unanswered"] += 1
+                        return                          # the gateway does not answer this authentication at all
                 s.authenticated = st == ST_AUTH_SUCCESS
                 self.send_wrapped(s, W.frame(W.SESSION_STATUS, bytes((st, 0))))
             return
